@@ -76,7 +76,13 @@ let consumer kind toks =
     let (acfg, rest) = groups ng rest [] in
     let qs = match rest with _ :: qs -> qs | [] -> [] in
     let rec qpairs = function a :: b :: t -> (int_of_string a, int_of_string b) :: qpairs t | _ -> [] in
-    if kind = "l2fw" then
+    if kind = "gpn" then
+      String.concat " " (List.concat_map (fun (s, _) ->
+          List.map (fun g ->
+              token_of_cps (rescan_policy g (n_of_int s)) ^ "@" ^
+              (match rescan_index (snd g) (n_of_int s) O with None -> "-1" | Some i -> string_of_int (int_of_nat i))) acfg)
+          (qpairs qs))
+    else if kind = "l2fw" then
       String.concat " " (List.map (fun (s, c) -> if l2gw_handoff acfg (n_of_int s) (n_of_int c) then "fwd" else "no") (qpairs qs))
     else
       let f = if variant = "rescan" then l2gw_policy_rescan else l2gw_policy in
@@ -85,13 +91,13 @@ let consumer kind toks =
           | None -> "none"
           | Some (n, p) -> token_of_cps n ^ ":" ^ token_of_cps p) (qpairs qs))
 
-(* cm <mode> <K> { <G> {<name> <R> {<sv> <cv>}} } <Q> {<s> <c>}: the candidates are committed one after the other through the
+(* cm <mode> <faults> <K> { <G> {<name> <R> {<sv> <cv>}} } <Q> {<s> <c>}: the candidates are committed one after the other through the
    configuration manager (cm_commit from cm_init; mode boot: the first one through the start-up path, same gate);
    per candidate: verdict ':' handler applications (h0 none, h+ applied) ':' answers of cm_lookup on the state after it; then conc=ok (the harness's concurrent-reader
    check has nothing to report when C14_cm_reads_one_generation holds of the code) *)
 let cm toks =
   match toks with
-  | _mode :: k :: rest ->
+  | _mode :: faults :: k :: rest ->
     let k = int_of_string k in
     let rec cfgs n rest acc = if n = 0 then (List.rev acc, rest) else
         let (c, rest) = read_config rest in cfgs (n-1) rest (c :: acc) in
@@ -99,13 +105,20 @@ let cm toks =
     let qs = match rest with _ :: qs -> qs | [] -> [] in
     let rec qpairs = function a :: b :: t -> (int_of_string a, int_of_string b) :: qpairs t | _ -> [] in
     let qs = qpairs qs in
-    let (_, outs) = List.fold_left (fun (st, outs) cfg ->
+    (* fault plan (driver only): a candidate that passes validation but whose commit is made to fail afterwards (handler
+       or persist failure) publishes nothing: the state stays; a rejected candidate is rejected before the fault matters *)
+    let (_, _, outs) = List.fold_left (fun (i, st, outs) cfg ->
+        let faulted = i < String.length faults && faults.[i] <> '-' && (_mode <> "boot" || i > 0) in
+        if faulted && validate_strict cfg = VOk then
+          let a = String.concat "," (List.map (fun (s, c) -> show_match (cm_lookup st (n_of_int s) (n_of_int c))) qs) in
+          (i + 1, st, ("failed:h*:" ^ a) :: outs)
+        else
         let st' = cm_commit st cfg in
         (* verdict and handler applications from the step model: applied grows by one iff the candidate is accepted *)
         let da = int_of_nat (applied st') - int_of_nat (applied st) in
         let v = (match validate_strict cfg with VOk -> "valid" | _ -> "rejected") ^ (if da = 0 then ":h0" else ":h+") in
         let a = String.concat "," (List.map (fun (s, c) -> show_match (cm_lookup st' (n_of_int s) (n_of_int c))) qs) in
-        (st', (v ^ ":" ^ a) :: outs)) (cm_init, []) cs in
+        (i + 1, st', (v ^ ":" ^ a) :: outs)) (0, cm_init, []) cs in
     String.concat " | " (List.rev ("conc=ok" :: outs))
   | _ -> "badline"
 
@@ -163,7 +176,11 @@ let sweep cfg =
     incr nruns;
     s := !e
   done;
-  Printf.sprintf "md5=%s hits=%d rowruns=%d diff=none" (Digest.to_hex (Digest.string (Buffer.contents tb))) !hits !nruns
+  (* identifiers above 4095: every claim's S-VLAN and exact C-VLAN lie in 1..4094 (C14_parser_bounds, C14_cvlan_bounds,
+     C14_lookup_sound), so an S-VLAN above 4095 never matches and a C-VLAN above 4095 is answered by the wildcard like the
+     untagged pair; the harness's probe of bits 12-15 has nothing to report.  The cfg cases query such pairs through the
+     model explicitly. *)
+  Printf.sprintf "md5=%s hits=%d rowruns=%d diff=none high=ok" (Digest.to_hex (Digest.string (Buffer.contents tb))) !hits !nruns
 
 let runes kind lo hi =
   let n c = n_of_int (Char.code c) in
@@ -212,6 +229,7 @@ let () =
       print_endline (show_validate cfg ^ " ; " ^ sweep cfg)
     | "l2gw" :: rest -> print_endline (consumer "l2gw" rest)
     | "l2fw" :: rest -> print_endline (consumer "l2fw" rest)
+    | "gpn" :: rest -> print_endline (consumer "gpn" rest)
     | "cm" :: rest -> print_endline (cm rest)
     | ["runes"; kind; lo; hi] -> print_endline (runes kind (int_of_string lo) (int_of_string hi))
     | _ -> print_endline "badline") lines
